@@ -55,7 +55,8 @@ pub assume_specification<T>[ std::sync::Mutex::<T>::new ](t: T) -> (r: std::sync
 pub uninterp spec fn mutex_init<T>(l: &std::sync::Mutex<T>) -> T;
 pub assume_specification<'a, 'b, T: ?Sized>[ <std::sync::MutexGuard<'a, T> as core::ops::DerefMut>::deref_mut ](g: &'b mut std::sync::MutexGuard<'a, T>) -> (r: &'b mut T)
     ensures same_val::<T>(&*r, mguard_content(old(g))), same_val::<T>(&*final(r), mguard_final(old(g)));
-pub assume_specification<'a, 'b, T: ?Sized>[ <std::sync::MutexGuard<'a, T> as core::ops::Deref>::deref ](g: &'b std::sync::MutexGuard<'a, T>) -> (r: &'b T);
+pub assume_specification<'a, 'b, T: ?Sized>[ <std::sync::MutexGuard<'a, T> as core::ops::Deref>::deref ](g: &'b std::sync::MutexGuard<'a, T>) -> (r: &'b T)
+    ensures same_val::<T>(r, mguard_content(g));
 
 // ---- "the write did happen" for RwLock (A11) ---------------------------------------------------------------
 /// prophecy-style oracles: the content of a lock after the verified call returns, and the content a write guard
